@@ -484,7 +484,7 @@ def main(argv):
         log(f'built harness, regenerated Gen ({changed}) in {time.time() - t0:.0f}s')
         ctx = Ctx(pid, tier, seed, core_out, prof_out)
         if replay:
-            return mod.replay(ctx, replay)
+            return (mod.replay(ctx, replay) if hasattr(mod, 'replay') else generic_replay(ctx, replay))
         proof = prove(pid, getattr(mod, 'EXTRA_TARGETS', ()), getattr(mod, 'FACT_MODULES', ()))
         log(f'proof step: {len(proof["theorems"])} theorems, build_ok={proof["build_ok"]}, failed={proof["failed"]} ({proof["wall_s"]:.0f}s)')
         if not proof.get('driver_ok'):
@@ -509,6 +509,59 @@ def main(argv):
             finish(ctx, mod, proof, corr, t0, already_reported=True)
             return 1
         return finish(ctx, mod, proof, corr, t0)
+
+
+def generic_replay(ctx, path):
+    """bin/check <ID> --replay <file>: re-execute the recorded case on the CURRENT tree and print what the real code, the
+    Lean model and the specification say.  Exit 1 if the case still fails, 0 if it no longer reproduces.  Replays that name
+    a theorem / assumption / build failure instead of an input re-run the whole check."""
+    d = json.load(open(path))
+    pid = ctx.pid
+    kind = d.get('kind')
+    case = d.get('case')
+    print(f'replay of {path}: kind={kind}')
+    if kind not in ('spec-violation', 'correspondence') or not isinstance(case, str):
+        print('this replay names no input (a theorem, a structural assumption or a build failure): re-running the check')
+        r = subprocess.run([os.path.join(VERIF, 'bin', 'check'), pid, '--tier', 'quick'], env=ENV)
+        return r.returncode
+    ok, out = lake_build(['driver'])
+    if not ok:
+        print(out[-2000:])
+        print(f'VIOLATION property={pid} replay={path} no-failing-input-found')
+        return 1
+    cases = [case] + [c for c in d.get('more', []) if isinstance(c, str)][:5]
+    failing = 0
+    for c in cases:
+        f = c.split('|')
+        if f[0] == 'rle' and len(f) >= 3:
+            fn, cp = f[1], int(f[2], 16)
+            def val(text, name):
+                for s_, e, v in parse_rle_text(text).get(name, []):
+                    if s_ <= cp <= e:
+                        return v
+                return '<absent>'
+            iv = val(sh([HARNESS, 'rle', fn]).stdout, fn)
+            mv = val(sh([DRIVER, 'rle', fn]).stdout, fn)
+            sv = val(sh([DRIVER, 'rle', 'spec_' + fn], check=False).stdout, 'spec_' + fn)
+            bad = iv != mv or (sv != '<absent>' and iv != sv)
+            print(f'  {fn} at U+{cp:04X}: implementation={iv} model={mv} specification={sv} -> {"STILL FAILS" if bad else "agrees now"}')
+        elif f[0] in ('ucdgen', 'source-scan', 'sizes') or f[0].startswith('threads') or f[0].startswith('stress'):
+            print('  this case needs the full check to be replayed: re-running it')
+            return subprocess.run([os.path.join(VERIF, 'bin', 'check'), pid, '--tier', 'quick'], env=ENV).returncode
+        else:
+            c1 = c.replace('|*|*|', '|f|b|')
+            res = run_cases([c1], os.path.join(CACHE, 'run', pid + '-replay'))
+            _, iv, mv, verdict = res[0]
+            bad = iv != mv or verdict.startswith('VIOLATED') or iv == 'PANIC' or iv.startswith('FORMS-DIFFER')
+            if verdict.startswith('VIOLATED-KNOWN'):
+                bad = iv != mv
+            print(f'  case {c[:200]}\n    implementation: {iv[:300]}\n    model:          {mv[:300]}\n    specification:  {verdict[:300]}\n    -> {"STILL FAILS" if bad else "agrees now"}')
+        failing += bad
+    if failing:
+        print(f'VIOLATION property={pid} replay={path}')
+        return 1
+    print('the recorded input no longer fails on the current tree')
+    return 0
 
 
 def source_changes():
